@@ -4,6 +4,7 @@ import ScVerif.C10.DrvSys
 import ScVerif.C10.DrvLate
 import ScVerif.C10.DrvWindow
 import ScVerif.C10.DrvMerge
+import ScVerif.C10.DrvInclude
 /-!
 Driver handler for C10: an *acceptor* over the bus model (K4 tie) and the pipeline model.
 
@@ -194,6 +195,7 @@ Requests:
 * `late <sync> <uo> <bp> <pre> <del|cancel> <observed>` → acceptor of the late-subscription model (`DrvLate.lean`)
 * `window <locked> <uo> <bp> <pre> <observed>` → acceptor of the seed-and-register window model (`DrvWindow.lean`)
 * `mseq <kinds>` → the change type `mergeChanges` leaves held after folding the letters a/u/r/p, or `none` (`DrvMerge.lean`)
+* `incl <start> <steps>` → the change types a `WithInclude` subscriber receives for an item that starts `n`/`i`/`e` and goes through the given states (`DrvInclude.lean`)
 -/
 def handleS (st : DState) (toks : List String) : DState × String :=
   match toks with
@@ -223,6 +225,7 @@ def handleS (st : DState) (toks : List String) : DState × String :=
   | "late" :: rest => (st, handleLate rest)
   | "window" :: rest => (st, handleWindow rest)
   | "mseq" :: rest => (st, handleMerge rest)
+  | "incl" :: rest => (st, handleInclude rest)
   | _ => (st, "!bad-op")
 
 end ScVerif.C10
